@@ -4,7 +4,7 @@
 WT=/tmp/wt_confirm
 export CARGO_TARGET_DIR=/tmp/wt_confirm_target CARGO_NET_OFFLINE=true
 cd $WT || exit 2
-for d in /verif/seeded_raw/*/*/; do
+for d in ${RAW:-/verif/seeded_raw}/*/*/; do
   id=$(basename $(dirname $d))_$(basename $d)
   [ -f $d/patch.diff ] || continue
   [ -f $d/confirm.json ] && [ -z "$FORCE" ] && continue
